@@ -87,9 +87,9 @@ func main() {
 	}
 	h.known = vh.KnownKeys(fs, "C10")
 
-	n := 2500 * *scale
+	n := 3300 * *scale // ≈ 10^4 evaluations over the three generated stages
 	if *tier == "thorough" {
-		n = 120000 * *scale
+		n = 165000 * *scale // ≈ 5·10^5
 	}
 	if *replay != "" {
 		h.replayFile(*replay)
